@@ -1309,4 +1309,42 @@ Lemma redefinition_hypotheses :
   reach_freeb (reg_fuel rd_reg) rd_reg rd_nd (map_to_list (u1 "hour")) = true ∧
   reach_freeb (reg_fuel rd_reg) rd_reg rd_nd (map_to_list (u1 "yard")) = false.
 Proof. repeat split; try (vm_compute; reflexivity). Qed.
+
+(** * 6. Colliding redefinitions: the most recently enabled context is in force, whatever
+    spelling (canonical name, symbol, alias) each context uses to designate the unit *)
+Lemma foldM_app {A B} (g : A → B → res A) (l1 l2 : list B) a :
+  foldM g (app l1 l2) a = (a' ←r foldM g l1 a; foldM g l2 a').
+Proof.
+  revert a. induction l1 as [|b l1 IH]; intros a; [reflexivity|]. simpl.
+  destruct (g a b) as [a1|e]; simpl; [apply IH | reflexivity].
+Qed.
+(** the redefinitions of the newest context are applied LAST, on top of the overlay of the older ones *)
+Lemma overlay_cons {E} r (pc : pctx E) (c : list (pctx E)) :
+  overlay r (pc :: c) = (r1 ←r overlay r c; foldM redefine (cx_redefs (pc_ctx pc)) r1).
+Proof.
+  unfold overlay. rewrite reverse_cons, foldM_app. destruct (foldM _ (reverse c) r) as [r1|e]; [|reflexivity].
+  simpl. destruct (foldM redefine (cx_redefs (pc_ctx pc)) r1); reflexivity.
+Qed.
+(** and a redefinition, applied to ANY registry (so also on top of earlier redefinitions of the same
+    unit made under other spellings), is in force under every spelling of the unit *)
+Theorem redefine_in_force (r r' : reg) (d : redef) :
+  redefine r d = Ok r' →
+  ∃ nd, r' = r_over r nd ∧ ∀ k, k ∈ spellings nd → r_units r' !! k = Some nd.
+Proof.
+  intros H. destruct (redefine_shape r r' d H) as (base & sc & fl & ref & _ & ->).
+  eexists. split; [reflexivity|]. intros k Hk. rewrite over_lookup.
+  destruct (decide (k ∈ _)); [reflexivity | contradiction].
+Qed.
+(** two contexts redefine [foot], one as [foot], the other by its symbol [ft]: the newest one counts,
+    also for [yard] = 3 foot; within one context the last line counts *)
+Definition rd_ctx (name : string) (lines : list (string * string)) : pctx nat :=
+  PCtx (Ctx name [] ∅ [] (map (λ l : string * string, Redef l.1 [TNum l.2; TOp "*"; TName "inch"; TEnd]) lines)) ∅.
+Definition yard_under (c : list (pctx nat)) : option Qc :=
+  match overlay rd_reg c with Ok r => root_factor r "yard" | Err _ => None end.
+Lemma colliding_redefinitions :
+  yard_under [rd_ctx "new" [("ft", "7")]; rd_ctx "old" [("foot", "10")]] = Some (mkq 21 1) ∧
+  yard_under [rd_ctx "new" [("foot", "10")]; rd_ctx "old" [("ft", "7")]] = Some (mkq 30 1) ∧
+  yard_under [rd_ctx "both" [("foot", "10"); ("ft", "7")]] = Some (mkq 21 1) ∧
+  yard_under [] = Some (mkq 36 1).
+Proof. repeat split; by_compute. Qed.
 Close Scope string_scope.
